@@ -11,7 +11,6 @@
   `default_set_excludes`, `default_no_pct`, `encode_default_visible`.
 -/
 import MdIt.Model.Url
-import MdIt.Gen.Consts
 
 namespace MdIt.Url
 
@@ -533,17 +532,16 @@ theorem keep_tokens (S : Nat → Bool) (bs : List Nat) :
 def isAlnum (b : Nat) : Bool :=
   (48 ≤ b && b ≤ 57) || (65 ≤ b && b ≤ 90) || (97 ≤ b && b ≤ 122)
 
-/-- the model constants are the constants extracted from the current Rust source -/
-theorem gen_asciiNew : Gen.Consts.asciiNew = asciiNew := by decide
-
-theorem gen_digits : ∀ n < 16, Gen.Consts.digits[n]? = some (digit n) := by decide
-
-/-- `normalize_link` calls `encode(.., keep_escaped = true)` -/
-theorem gen_keep : Gen.Consts.normalizeKeepEscaped = true := rfl
+/-- the string handed to `AsciiSet::from` in `normalize_link` (`parser/main.rs`): `;/?:@&=+$,-_.!~*'()#`.
+    The obligations that this list, `asciiNew`, `digit` and the keep-escapes flag ARE the constants found in the
+    current Rust source are in `Props/GenC17.lean` (`gen_safeChars`, `gen_asciiNew`, `gen_digits`, `gen_keep`),
+    regenerated and re-checked on every run by the checks of the properties that depend on them. -/
+def shippedSafe : List Nat :=
+  [59, 47, 63, 58, 64, 38, 61, 43, 36, 44, 45, 95, 46, 33, 126, 42, 39, 40, 41, 35]
 
 /-- the shipped set, checked bit by bit (the general statement is `asciiset_spec` below) -/
-theorem setFrom_spec : ∀ b < 128, setHas (setFrom Gen.Consts.safeChars) b =
-    (isAlnum b || Gen.Consts.safeChars.contains b) := by decide +kernel
+theorem setFrom_spec : ∀ b < 128, setHas (setFrom shippedSafe) b =
+    (isAlnum b || shippedSafe.contains b) := by decide +kernel
 
 theorem setHas_testBit (bits b : Nat) : setHas bits b = bits.testBit b := by
   rw [Bool.eq_iff_iff]; simp [setHas, Nat.testBit_eq_decide_div_mod_eq, Nat.shiftRight_eq_div_pow]
@@ -585,8 +583,8 @@ theorem asciiset_spec (str : List Nat) (b : Nat) :
   · exact asciiNew_spec b h
   · rw [asciiNew_high b (by omega)]; simp [isAlnum]; omega
 
-/-- the safe set shipped in `normalize_link` (`parser/main.rs`), from the generated constant -/
-def defaultSafe : Nat → Bool := setHas (setFrom Gen.Consts.safeChars)
+/-- the safe set shipped in `normalize_link` (`parser/main.rs`) -/
+def defaultSafe : Nat → Bool := setHas (setFrom shippedSafe)
 
 /-- exact complement of the shipped set inside ASCII -/
 theorem default_set_exact : ∀ b < 128, (defaultSafe b = false ↔
